@@ -66,6 +66,17 @@ DocTable == [nr |-> 2, nc |-> 3, off |-> 0, hm |-> "first", hdr |-> TRUE,
 DocList == <<[d |-> 0, k |-> "u", w |-> "i1"], [d |-> 1, k |-> "u", w |-> "i2"], [d |-> 2, k |-> "u", w |-> "i3"],
              [d |-> 0, k |-> "u", w |-> "i4"]>>
 
+\* ---------------------------------------------------------------- ragged tables
+\* <<"G", nr, nc, rw, hm>>: rows with differing numbers of cells (rw[r] cells in row r, the widest row nc):
+\* a first row narrower than the rest (a one-cell caption row), a first row wider, a short row in the middle
+\* or at the end.  Every row has at least one cell (a row without cells has no text to keep, and ODF does
+\* not allow one).
+RowWidths(nr, nc) == {w \in [1..nr -> 1..nc] : (\E r \in 1..nr : w[r] = nc) /\ (\E r \in 1..nr : w[r] < nc)}
+CasesG == UNION {{<<"G", sh[1], sh[2], w, h>> : w \in RowWidths(sh[1], sh[2]), h \in {"none", "first"}} :
+                   sh \in {x \in Shapes : x[1] >= 2 /\ x[2] >= 2}}
+RaggedTable(d) == [nr |-> d[2], nc |-> d[3], off |-> 0, hm |-> d[5], hdr |-> d[5] = "first", rw |-> d[4],
+                   kind |-> [r \in 1..d[2] |-> [c \in 1..d[3] |-> IF r = 2 /\ c = 1 THEN "pipe" ELSE "plain"]], m |-> NoMerge]
+
 \* ---------------------------------------------------------------- repeated content
 \* <<"R", hs, sep, toc>>: a document of 2..MaxRepeat headings <<level, word>> over two words in which some
 \* heading text occurs again - at the same or another level, next to its twin or apart, under the same
@@ -115,6 +126,7 @@ McExpand(d) ==
     CASE d[1] \in {"T", "F"} -> [els |-> <<[t |-> "table", tb |-> TableOf(d)]>>, off |-> 0, mx |-> 6, meta |-> FALSE, toc |-> FALSE]
       [] d[1] = "H" -> [els |-> <<H(d[2], "hX"), P("pX")>>, off |-> d[3], mx |-> d[4], meta |-> FALSE, toc |-> FALSE]
       [] d[1] = "L" -> [els |-> <<[t |-> "list", items |-> ItemsOf(d[2], d[3])]>>, off |-> 0, mx |-> 6, meta |-> FALSE, toc |-> FALSE]
+      [] d[1] = "G" -> [els |-> <<[t |-> "table", tb |-> RaggedTable(d)]>>, off |-> 0, mx |-> 6, meta |-> FALSE, toc |-> FALSE]
       [] d[1] = "R" -> [els |-> RepEls(d[2], d[3]), off |-> 0, mx |-> 6, meta |-> FALSE, toc |-> d[4]]
       [] d[1] = "RX" -> [els |-> RXEls(d[2]), off |-> 0, mx |-> 6, meta |-> FALSE, toc |-> d[3]]
       [] d[1] = "S" -> [els |-> [x \in 1..Len(d[2]) |-> SeqEl(d[2], x)], off |-> d[3], mx |-> 6, meta |-> FALSE, toc |-> FALSE]
@@ -122,7 +134,7 @@ McExpand(d) ==
                                   [t |-> "table", tb |-> DocTable], H(3, "hC"), P("pC")>>,
                         off |-> d[2], mx |-> d[3], meta |-> d[4], toc |-> d[5]]
 
-AllCases == CasesR \cup CasesRX \cup CasesS \cup CasesTOk \cup CasesTM \cup CasesF \cup CasesH \cup CasesLOk \cup CasesD
+AllCases == CasesG \cup CasesR \cup CasesRX \cup CasesS \cup CasesTOk \cup CasesTM \cup CasesF \cup CasesH \cup CasesLOk \cup CasesD
 TableCases == CasesTOk \cup CasesTM
 \* the negative controls only need small tables
 ImplCases == {x \in TableCases : x[2] <= 2 /\ x[3] <= 2}
@@ -142,7 +154,7 @@ LineText(ln) ==
 
 ElOut(el) ==
     CASE el.t = "table"   -> [t |-> "table", nr |-> el.tb.nr, nc |-> el.tb.nc, off |-> el.tb.off, hdr |-> el.tb.hdr, hm |-> el.tb.hm,
-                              hrows |-> SetToSortSeq(HdrRowsOf(el.tb.hm, el.tb.nr), <), merged |-> HasMerge(el.tb),
+                              hrows |-> SetToSortSeq(HdrRowsOf(el.tb.hm, el.tb.nr), <), merged |-> HasMerge(el.tb), ragged |-> IsRagged(el.tb),
                               src |-> Src(el.tb), special |-> Special(el.tb)]
       [] el.t = "heading" -> [t |-> "heading", level |-> el.level, w |-> el.w]
       [] el.t = "list"    -> [t |-> "list", items |-> el.items, uniform |-> Uniform(el.items)]
